@@ -101,7 +101,7 @@ package tags
 // ---- the render loop: visits Index(0..l) in order, binds forloop, restores (C11, C12)
 
 //@ func (tags.loopRenderer).render
-//@ props C11 C12 C20 C01
+//@ props C11 C12 C20 C01 C03 C04
 //@ requires args: iter != nil && ctx != nil && w != nil
 //@ ghost wfailed Bool = false
 //@ at call before #1: wfailed = result != nil
@@ -143,8 +143,9 @@ package tags
 //@ ensures nilcase: value == nil ==> result == nil
 
 //@ func tags.loopTagCompiler$1
+//@ nocapture
 //@ expect func(w io.Writer, ctx render.Context) error
-//@ props C11 C01
+//@ props C11 C01 C03 C04
 //@ requires args: w != nil && ctx != nil && stmt != nil && forall(k, 0, len(node.Clauses), node.Clauses[k] != nil)
 //@ ghost decided Bool = false
 //@ ghost nothing Bool = false
@@ -206,16 +207,18 @@ package tags
 // ---- break / continue: the sentinel is what Cause() reports, so only the innermost loop sees it
 
 //@ func tags.breakTag$1
+//@ nocapture
 //@ expect func(_ io.Writer, ctx render.Context) error
-//@ props C11 C01
+//@ props C11 C01 C03 C04
 //@ panics nothing
 //@ requires args: ctx != nil
 //@ assigns nothing
 //@ ensures sentinel: result != nil
 
 //@ func tags.continueTag$1
+//@ nocapture
 //@ expect func(_ io.Writer, ctx render.Context) error
-//@ props C11 C01
+//@ props C11 C01 C03 C04
 //@ panics nothing
 //@ requires args: ctx != nil
 //@ assigns nothing
@@ -224,8 +227,9 @@ package tags
 // ---- conditionals: exactly the first truthy branch is rendered (C10) --------------
 
 //@ func tags.ifTagCompiler$1$1
+//@ nocapture
 //@ expect func(w io.Writer, ctx render.Context) error
-//@ props C10 C01
+//@ props C10 C01 C03 C04
 //@ panics nothing
 //@ requires args: w != nil && ctx != nil && forall(k, 0, len(branches), branches[k].body != nil)
 //@ ghost evals Int = 0
@@ -254,8 +258,9 @@ package tags
 //@ assigns nothing
 
 //@ func tags.caseTagCompiler$1
+//@ nocapture
 //@ expect func(w io.Writer, ctx render.Context) error
-//@ props C10 C01
+//@ props C10 C01 C03 C04
 //@ panics nothing
 //@ requires args: w != nil && ctx != nil && forall(k, 0, len(cases), cases[k] != nil && cases[k].body() != nil)
 //@ ghost tests Int = 0
@@ -296,7 +301,7 @@ package tags
 //@ ensures def: result == c.b
 
 //@ func (tags.exprCase).test
-//@ props C10 C01
+//@ props C10 C01 C03 C04
 //@ panics nothing
 //@ assigns nothing
 //@ requires args: ctx != nil
@@ -315,6 +320,7 @@ package tags
 // ---- cycle: round-robin per loop and group; state lives in the loop's own map ---------
 
 //@ func tags.cycleTag$1
+//@ nocapture
 //@ expect func(w io.Writer, ctx render.Context) error
 //@ implements func(io.Writer, render.Context) error
 //@ props C11 C01 C03 C04 C20
@@ -335,9 +341,10 @@ package tags
 // ---- assign / capture (C12): bind exactly the value / the captured text; no output -----
 
 //@ func tags.assignTag$1
+//@ nocapture
 //@ expect func(w io.Writer, ctx render.Context) error
 //@ implements func(io.Writer, render.Context) error
-//@ props C12 C01 C03
+//@ props C12 C01 C03 C04
 //@ panics nothing
 //@ assigns M$has$Str$Val, M$val$Str$Val
 //@ requires parsed: stmt != nil
@@ -352,9 +359,10 @@ package tags
 //@ ensures silent: wunchanged()
 
 //@ func tags.captureTagCompiler$1
+//@ nocapture
 //@ expect func(w io.Writer, ctx render.Context) error
 //@ implements func(io.Writer, render.Context) error
-//@ props C12 C01
+//@ props C12 C01 C03 C04
 //@ panics nothing
 //@ ghost s Str = ""
 //@ ghost e Val = nil
@@ -367,9 +375,10 @@ package tags
 // ---- include (C14) ---------------------------------------------------------------------
 
 //@ func tags.includeTag$1
+//@ nocapture
 //@ expect func(w io.Writer, ctx render.Context) error
 //@ implements func(io.Writer, render.Context) error
-//@ props C14 C01 C20
+//@ props C14 C01 C20 C03 C04
 //@ panics nothing
 //@ requires tag: intag(ctx)
 //@ ghost argsrc Str = ""
